@@ -15,6 +15,7 @@ import (
 	"strconv"
 	"strings"
 	"testing"
+	"time"
 
 	"github.com/imroc/req/v3/internal/verifh"
 )
@@ -159,6 +160,17 @@ func TestVerif_C17_e2e(t *testing.T) {
 				c.SetCommonFormDataFromValues(cl.values())
 			}
 		}
+		// this case's requests only: a request that broke off (a streamed body whose writer refused a
+		// field) may be recorded by the origin after the case that sent it has moved on
+		cid := "cid=" + strconv.Itoa(i)
+		takeMine := func() (mine []c17Seen) {
+			for _, sn := range o.take() {
+				if sn.Query == cid {
+					mine = append(mine, sn)
+				}
+			}
+			return
+		}
 		class := ""
 		setClass := func(cls string) {
 			if class == "" {
@@ -185,8 +197,8 @@ func TestVerif_C17_e2e(t *testing.T) {
 				setClass("c17-plain-and-ordered")
 			}
 			req.Method = method
-			resp, err := req.Send(method, o.base+"/f")
-			seen := o.take()
+			resp, err := req.Send(method, o.base+"/f"+"?"+cid)
+			seen := takeMine()
 			line = "c17forme2e " + rq.line() + " " + cl.line() + " " + verifh.HexList(ordArgs)
 			// supplied multimap: ordered pairs first, then request values, then client values
 			want := map[string][]string{}
@@ -283,8 +295,8 @@ func TestVerif_C17_e2e(t *testing.T) {
 				req.EnableForceChunkedEncoding()
 				s.Count("forced-chunked")
 			}
-			resp, err := req.Send(method, o.base+"/m")
-			seen := o.take()
+			resp, err := req.Send(method, o.base+"/m"+"?"+cid)
+			seen := takeMine()
 			// the model's field list: ordered pairs, then the merged map sorted by key
 			merged := c17KV{}
 			mm := c17Merged(rq, cl)
@@ -303,7 +315,17 @@ func TestVerif_C17_e2e(t *testing.T) {
 			if exoticField == "empty" {
 				// a field without a name cannot be represented: the call fails, nothing is sent
 				line = "c17mpe2e " + verifh.Hex("X") + " " + c17FlatPairs(fields) + " " + c17FilesLine(files)
-				impl, ok = "err", err != nil && len(seen) == 0
+				// buffered: nothing is sent; streamed: the request may have started, but the origin must
+				// not get a body it can read to its end
+				impl, ok = "err", err != nil
+				if err != nil && !chunked {
+					time.Sleep(2 * time.Millisecond)
+				}
+				for _, sn := range seen {
+					if !chunked || sn.BodyErr == nil {
+						ok = false
+					}
+				}
 				if err == nil {
 					impl = "sent"
 				}
@@ -410,8 +432,8 @@ func TestVerif_C17_e2e(t *testing.T) {
 			case "files":
 				req.SetFileBytes("f", "n.txt", []byte("data"))
 			}
-			resp, err := req.Send(method, o.base+"/b")
-			seen := o.take()
+			resp, err := req.Send(method, o.base+"/b"+"?"+cid)
+			seen := takeMine()
 			js, jerr := json.Marshal(marshalVal)
 			xs, xerr := xml.Marshal(marshalVal)
 			sniffed := ""
